@@ -8,7 +8,8 @@
      "lin"      type linear: every value and derivative (LinValue / LinDeriv, also beyond the input
                 range), i.e. derivative output = derivative of value output exactly;
      "ident"    all types, output grid = input grid (uniform): values and flags returned unchanged;
-     "dov"      cubic/akima on the quarter-point grid: derivative-of-value and knot-continuity
+     "dov"      all types on the quarter-point grid, optionally one interval WIDER than the input on both
+                sides: derivative-of-value (also in the two extrapolation regions) and knot-continuity
                 relations between ROWS of the two output files; with periodic = TRUE the run uses
                 --boundaries periodic and the first/last rows must agree in value and slope;
      "fitline"  straight-line data fitted on a coarser --fitgrid: output on the line.            *)
@@ -51,12 +52,14 @@ Init == /\ ph = 0
                 /\ (t = "cubic" => n >= 3) /\ (t = "akima" => n >= 4)
                 /\ c = [fam |-> "ident", type |-> t, K |-> UKnots(o, g, n), Y |-> y, F |-> f,
                         grid |-> <<Q * o, Q * g, Q * (o + (n - 1) * g)>>, per |-> FALSE]
-           \/ \E g \in GapSet, t \in {"cubic", "akima"}, p \in BOOLEAN :
-                /\ Chosen(Hash(n, y, f, 7 + g + (IF t = "cubic" THEN 1 ELSE 2) + (IF p THEN 3 ELSE 0)), ThinDov)
+           \/ \E g \in GapSet, t \in {"linear", "cubic", "akima"}, p \in BOOLEAN, w \in {0, 1} :
+                \* w = 1: output grid one interval wider than the input on both sides (extrapolation regions)
+                /\ Chosen(Hash(n, y, f, 7 + g + (IF t = "cubic" THEN 1 ELSE 2) + (IF p THEN 3 ELSE 0) + 5 * w), ThinDov)
+                /\ (t = "linear" => ~p /\ w = 1)
                 /\ (t = "cubic" => n >= 3) /\ (t = "akima" => n >= 4)
                 /\ c = [fam |-> "dov", type |-> t, K |-> UKnots(o, g, n),
                         Y |-> IF p THEN [y EXCEPT ![n] = y[1]] ELSE y, F |-> f,    \* periodic data: y_N = y_1
-                        grid |-> <<Q * o, (Q * g) \div 4, Q * (o + (n - 1) * g)>>, per |-> p]
+                        grid |-> <<Q * o - w * Q * g, (Q * g) \div 4, Q * (o + (n - 1) * g) + w * Q * g>>, per |-> p]
            \/ \E s \in {2, 4}, hm \in {2, 3}, t \in {"linear", "cubic"}, b \in {-3, 1} :
                 \* line data y = a x + b on n+2 points of step s (a = y[1]), fit grid step hm*s, output step s or 2s
                 LET XX == [i \in 1..(n + 3) |-> Q * o + (i - 1) * s] IN
@@ -95,7 +98,10 @@ ToRows(rels) == [j \in 1..Len(rels) |->
                    <<rels[j].c>> \o FlatK([l \in 1..Len(rels[j].t) |->
                         <<rels[j].t[l][1], rels[j].t[l][3], RowOf(rels[j].t[l][4])>>], 3)]
 FlatRat(f) == FlatK(f, 2)
-DovRels == ToRows(PieceRelations(1, K, 3, TRUE)
+Wide == Mn < K[1]
+Deg == IF c.type = "linear" THEN 1 ELSE 3
+DovRels == ToRows(PieceRelations(1, K, Deg, Deg = 3)
+                  \o (IF Wide THEN ExtrapRelations(1, K, Deg) ELSE <<>>)
                   \o (IF c.per THEN <<PeriodicValue(1, K), PeriodicSlope(1, K)>> ELSE <<>>)
                   \o (IF c.per /\ c.type = "cubic" THEN <<PeriodicCurv(1, K)>> ELSE <<>>)
                   \o (IF ~c.per /\ c.type = "cubic" THEN NaturalEnds(1, K) ELSE <<>>))
@@ -107,7 +113,8 @@ Theorems == ph = 1 =>
   /\ c.fam = "ident" => /\ Cnt = N /\ \A i \in 1..N : G[i] = K[i]
                         /\ \A i \in 1..N : ExpFlags[i] = F[i]  \* flags kept on the input grid
                         /\ \A i \in 1..N : RatEq(LinValue(K, Y, G[i]), Rat(Y[i], 1))
-  /\ c.fam = "dov" => Cnt = 4 * (N - 1) + 1 /\ \A i \in 1..N : G[4 * (i - 1) + 1] = K[i]
+  /\ c.fam = "dov" => LET w == IF Wide THEN 4 ELSE 0 IN
+                      Cnt = 4 * (N - 1) + 1 + 2 * w /\ \A i \in 1..N : G[4 * (i - 1) + 1 + w] = K[i]
   /\ c.fam = "fitline" => /\ IsGrid(SplineGrid(c.fit[1], c.fit[3], c.fit[2]))
                           /\ LET FG == SplineGrid(c.fit[1], c.fit[3], c.fit[2]) IN
                              \A i \in 1..(Len(FG) - 1) : \E j \in 1..N : FG[i] < K[j] /\ K[j] < FG[i + 1]
